@@ -7,6 +7,7 @@
 #
 # @author Davide Brunato <brunato@sissa.it>
 #
+import re
 from collections import deque
 from collections.abc import Callable, Iterable, Iterator
 from functools import cached_property
@@ -70,7 +71,8 @@ def split_path(path: str, namespaces: Optional[NsmapType] = None,
         while condition(path[end]):
             end += 1
 
-    path = path.replace(' ', '').replace('\t', '').replace('./', '')  # path normalization
+    path = path.replace(' ', '').replace('\t', '')
+    path = re.sub(r'(?<!\.)\./(?!/)', '', path)  # path normalization ('.//' is kept)
     chunks: deque[str] = deque([''])  # add an empty element to avoid index errors
     default_namespace = None if not namespaces else namespaces.get('')
 
